@@ -20,6 +20,18 @@ let suite_deblock_img path =
       | _ -> failwith ("bad case line: " ^ line))
     (read_lines path)
 
+let suite_deblock_spec path =
+  Stdlib.List.iter
+    (fun line ->
+      match split_ws line with
+      | [ idx; w; h; s; hex ] ->
+          let data = zs_of_hex hex in
+          let out = Deblock.annexJ_flat data (z (int_of_string w)) (z (int_of_string h)) (z (int_of_string s)) in
+          Printf.printf "%s ok %s\n" idx (hex_of_zs out)
+      | [] -> ()
+      | _ -> failwith ("bad case line: " ^ line))
+    (read_lines path)
+
 (* Kernel tables for the exhaustive sweep on the implementation side:
    d1 as a function of (x = A-4B+4C-D, s); d2 as a function of (y = A-D, d1).
    Obtained from the *spec* kernel annexJ by choosing representative samples. *)
@@ -66,6 +78,7 @@ let suite_strength_table () =
 let () =
   match Array.to_list Sys.argv with
   | _ :: "deblock-img" :: p :: _ -> suite_deblock_img p
+  | _ :: "deblock-spec" :: p :: _ -> suite_deblock_spec p
   | _ :: "deblock-tables" :: _ -> suite_deblock_tables ()
   | _ :: "deblock-kernel" :: p :: _ -> suite_deblock_kernel p
   | _ :: "strength-table" :: _ -> suite_strength_table ()
